@@ -433,5 +433,10 @@ CHECKS["C01"]["thorough"] += G_NEST[:1]
 CHECKS["C07"]["thorough"] += G_NEST[:1]
 CHECKS["C02"]["bounds"] += "; plus one action dispatched synchronously from inside a middleware callback (through the dispatcher the loop hands to callbacks) with one action queued"
 
+_W_CROSS = "two stores; a callback of store A (effect phase of A's first action, on A's reducer thread, inside A's loop run) dispatches to store B whose BlockOnFull queue (capacity 1) is full; B's reducer takes one item when somebody waits; oracle: for B this is an ordinary client call - it waits for room, is accepted, takes the freed slot, B counts no error and no drop; A's own log/state/metrics are those of the single-store model"
+CHECKS["C19"]["quick"] += [_g2("g_two_cross_dispatch_full_b", _W_CROSS, "A: 1 action, B: capacity 1, full")]
+CHECKS["C19"]["bounds"] += "; one cross-store dispatch from a callback of A into a full queue of B"
+CHECKS["C19"]["outside"] = "more than two stores; thread-name based coupling (thread names are not modelled); thread-local coupling other than along a call made from a store's own reducer context (all modelled contexts share one OS thread, so a thread-local set by A's loop is also seen by client calls PLACED inside A's loop run); interference through user-supplied shared objects"
+
 HOOK_COMMITS = ['da8b80e', '8cd617e', '39efd23']
 NOT_APPLICABLE = {}
